@@ -209,6 +209,14 @@ func setTaskTimeouts(hooks []Hook, ops []Op) {
 			}
 		}
 	}
+	// a hook with the short time-out cannot also be scripted to succeed slowly
+	for i := range ops {
+		for k, v := range ops[i].TaskOut {
+			if id, _ := strconv.Atoi(k); v == "okslow" && short[id] {
+				ops[i].TaskOut[k] = "ok"
+			}
+		}
+	}
 	for i := range hooks {
 		if hooks[i].Kind == "task" {
 			if short[hooks[i].Id] {
@@ -248,7 +256,7 @@ func genC08(r *gen.Rand) (Input, string) {
 	return in, "order"
 }
 
-var taskOutcomes = []string{"ok", "ok", "exit", "invol", "timeout"}
+var taskOutcomes = []string{"ok", "ok", "ok", "exit", "invol", "timeout", "late", "okslow", "trigfail"}
 
 func genC09(r *gen.Rand) (Input, string) {
 	init := r.Pick([]string{"STANDBY", "DEPLOYED", "DEPLOYED", "CONFIGURED", "CONFIGURED"})
@@ -277,8 +285,8 @@ func genC09(r *gen.Rand) (Input, string) {
 		for _, t := range tasks {
 			if r.Chance(1, 2) {
 				out := r.Pick(taskOutcomes)
-				if out == "timeout" {
-					if slowTimeouts >= 2 { // each costs a real timeout
+				if out == "timeout" || out == "late" || out == "okslow" {
+					if slowTimeouts >= 2 { // each costs a real time-out (25 ms) or the wait for a late event (75 ms)
 						out = "exit"
 					} else {
 						slowTimeouts++
@@ -292,14 +300,17 @@ func genC09(r *gen.Rand) (Input, string) {
 		}
 		op.Slow = subset(r, callIds(hooks, func(Hook) bool { return true }), 1, 8)
 	}
-	// A failed trigger command leaves its collector goroutine behind (finding C09-d): hook tasks
-	// triggered afterwards behave unpredictably.  Random cases use it only where nothing can
-	// follow: a single hook task, in the last operation, no teardown pass afterwards.
-	if len(tasks) == 1 && len(in.Ops) > 0 && r.Chance(1, 2) {
-		last := &in.Ops[len(in.Ops)-1]
-		last.TaskOut = map[string]string{strconv.Itoa(tasks[0]): "trigfail"}
+	// a failed trigger command early in the history: whatever is triggered later must behave
+	// (the collector of the failed group used to stay behind, former finding C09-d)
+	if len(tasks) >= 1 && len(in.Ops) > 0 && r.Chance(1, 3) {
+		first := &in.Ops[0]
+		if first.TaskOut == nil {
+			first.TaskOut = map[string]string{}
+		}
+		first.TaskOut[strconv.Itoa(tasks[r.Intn(len(tasks))])] = "trigfail"
 		kind = "trigfail"
-	} else if r.Chance(1, 2) {
+	}
+	if r.Chance(1, 2) {
 		in.Ops = append(in.Ops, Op{Ev: "LEAVE_CANCEL"})
 	}
 	setTaskTimeouts(in.Hooks, in.Ops)
@@ -317,25 +328,42 @@ func genC10(r *gen.Rand) (Input, string) {
 	hooks := genHooks(r, runMoments, pf)
 	hooks = addProbes(hooks, runMoments, []int{-1, 0, 1})
 	in := Input{Level: "bare", Init: init, Hooks: hooks, Ops: p.ops}
-	state := init
 	crit := callIds(hooks, func(h Hook) bool { return h.Crit })
+	// half of the histories run the real START / STOP / GO_ERROR transition objects
+	real := r.Chance(1, 2)
+	cut := -1
 	for i := range in.Ops {
 		op := &in.Ops[i]
 		if r.Chance(1, 5) {
 			op.Fail = subset(r, crit, 1, 2)
 		}
-		if r.Chance(1, 8) {
+		if r.Chance(1, 8) || (real && (op.Ev == "START_ACTIVITY" || op.Ev == "STOP_ACTIVITY") && r.Chance(1, 4)) {
 			op.Body = "fail"
 		}
 		// sometimes the watcher's path instead of a plain GO_ERROR
 		if op.Ev == "GO_ERROR" && r.Chance(1, 2) {
 			op.Ev = "FORCE_ERROR"
 		}
-		_ = state
+		if real && (op.Ev == "START_ACTIVITY" || op.Ev == "STOP_ACTIVITY" || op.Ev == "GO_ERROR" || op.Ev == "FORCE_ERROR") {
+			op.Real = true
+			if op.Ev == "GO_ERROR" || op.Ev == "FORCE_ERROR" {
+				op.Body = "" // the real GO_ERROR transition does nothing and cannot fail
+			}
+		}
+		// what ControlEnvironment does after a failed transition: GO_ERROR
+		if cut < 0 && op.Body == "fail" && (op.Ev == "START_ACTIVITY" || op.Ev == "STOP_ACTIVITY") && r.Chance(2, 3) {
+			cut = i
+		}
+	}
+	if cut >= 0 {
+		in.Ops = append(in.Ops[:cut+1:cut+1], Op{Ev: "GO_ERROR", Real: real})
+		if r.Chance(1, 2) {
+			in.Ops = append(in.Ops, Op{Ev: "RECOVER"})
+		}
 	}
 	// a run interrupted by the error watcher
 	if r.Chance(1, 3) {
-		in.Ops = append(in.Ops, Op{Ev: "FORCE_ERROR", Fail: subset(r, crit, 1, 2)})
+		in.Ops = append(in.Ops, Op{Ev: "FORCE_ERROR", Fail: subset(r, crit, 1, 2), Real: real})
 	}
 	if r.Chance(1, 2) {
 		in.Ops = append(in.Ops, Op{Ev: "LEAVE_CANCEL"})
@@ -411,6 +439,15 @@ func corpus(prop string) ([]Input, []string) {
 		add("witness-stale-collector-crash", Input{Level: "bare", Init: "DEPLOYED", Hooks: []Hook{
 			{Id: 1, Kind: "task", Trig: "before_CONFIGURE", Crit: false, Timeout: "10s"}},
 			Ops: []Op{{Ev: "CONFIGURE", TaskOut: map[string]string{"1": "trigfail"}}, {Ev: "RESET"}, {Ev: "CONFIGURE"}}})
+		// a cancelling failure at a negative weight of leave_<state> / before_<event>: nothing of a
+		// later weight may run (seeded regression C09-1)
+		add("cancel-straddles-zero", Input{Level: "bare", Init: "DEPLOYED", Hooks: []Hook{
+			{Id: 1, Kind: "call", Trig: "leave_DEPLOYED-10", Await: "leave_DEPLOYED-10", Crit: true},
+			{Id: 2, Kind: "call", Trig: "leave_DEPLOYED", Await: "leave_DEPLOYED", Crit: true},
+			{Id: 3, Kind: "task", Trig: "leave_DEPLOYED+10", Crit: false, Timeout: "10s"},
+			{Id: 4, Kind: "call", Trig: "before_CONFIGURE-1", Await: "before_CONFIGURE-1", Crit: true},
+			{Id: 5, Kind: "call", Trig: "before_CONFIGURE+1", Await: "before_CONFIGURE+1", Crit: false}},
+			Ops: []Op{{Ev: "CONFIGURE", Fail: []int{1, 2}}, {Ev: "CONFIGURE", Fail: []int{4, 5}}, {Ev: "CONFIGURE", Fail: []int{5}}}})
 		var many []Hook
 		var all []int
 		for i := 1; i <= 16; i++ {
@@ -441,6 +478,20 @@ func corpus(prop string) ([]Input, []string) {
 		add("witness-failed-start", Input{Level: "bare", Init: "CONFIGURED", Hooks: []Hook{
 			{Id: 1, Kind: "call", Trig: "before_START_ACTIVITY", Await: "before_START_ACTIVITY", Crit: true}},
 			Ops: []Op{{Ev: "START_ACTIVITY", Fail: []int{1}}, {Ev: "START_ACTIVITY"}, {Ev: "STOP_ACTIVITY"}}})
+		// the real transition objects against a stand-in task manager: a run whose tasks fail to
+		// START (StartActivityTransition zeroes currentRunNumber) or to STOP is closed by the GO_ERROR
+		// that ControlEnvironment issues next
+		probes := []Hook{
+			{Id: 1, Kind: "call", Trig: "before_GO_ERROR-1", Await: "before_GO_ERROR-1"},
+			{Id: 2, Kind: "call", Trig: "before_GO_ERROR", Await: "before_GO_ERROR"},
+			{Id: 3, Kind: "call", Trig: "after_GO_ERROR+1", Await: "after_GO_ERROR+1"}}
+		add("real-start-fails-then-go-error", Input{Level: "bare", Init: "CONFIGURED", Hooks: probes,
+			Ops: []Op{{Ev: "START_ACTIVITY", Body: "fail", Real: true}, {Ev: "GO_ERROR", Real: true}, {Ev: "RECOVER"}}})
+		add("real-stop-fails-then-go-error", Input{Level: "bare", Init: "CONFIGURED", Hooks: probes,
+			Ops: []Op{{Ev: "START_ACTIVITY", Real: true}, {Ev: "STOP_ACTIVITY", Body: "fail", Real: true}, {Ev: "GO_ERROR", Real: true}}})
+		add("real-start-stop-start-fails-watcher", Input{Level: "bare", Init: "CONFIGURED", Hooks: probes,
+			Ops: []Op{{Ev: "START_ACTIVITY", Real: true}, {Ev: "STOP_ACTIVITY", Real: true},
+				{Ev: "START_ACTIVITY", Body: "fail", Real: true}, {Ev: "FORCE_ERROR", Real: true}}})
 	}
 	return ins, kinds
 }
